@@ -64,6 +64,7 @@ Conf == LET m == Sync(Sn) IN
         ELSE Norm(m.calls) = Norm(Calls) /\ m.res = Rslt
 
 P_C02L == C02Local(Sn, Calls, Rslt)
+P_C02S == C02LocalScale(Sn, Calls, Rslt)
 P_C03 == C03(Sn, Calls)
 P_C04 == C04(Sn, Calls)
 P_C05 == C05(Sn, Calls)
